@@ -63,12 +63,17 @@ type scenStat struct {
 }
 
 type shardResult struct {
-	Race       bool        `json:"race"`
-	Scenarios  []scenStat  `json:"scenarios"`
-	Violations []violation `json:"violations"`
-	Infra      string      `json:"infra,omitempty"`
-	Sample     []string    `json:"sample,omitempty"`
+	Race       bool             `json:"race"`
+	Scenarios  []scenStat       `json:"scenarios"`
+	Violations []violation      `json:"violations"`
+	Infra      string           `json:"infra,omitempty"`
+	Sample     []string         `json:"sample,omitempty"`
+	Extra      map[string]int64 `json:"extra,omitempty"`
 }
+
+// WorkerExtra, if set, lets a check add its own counters (summed over the shards of the
+// plain build) to the evidence, e.g. the number of distinct histories judged.
+var WorkerExtra func() map[string]int64
 
 // Main runs the scenarios: as coordinator (forks workers and merges their
 // results into r) or, when VERIF_SHARD is set, as one worker.
@@ -179,6 +184,9 @@ func worker(scenarios []Scenario, sh string, budget time.Duration) {
 			res.Sample = append(res.Sample, sc.Name+": "+strings.Join(y.Trace, " | "))
 		}
 	}
+	if WorkerExtra != nil {
+		res.Extra = WorkerExtra()
+	}
 	b, _ := json.Marshal(res)
 	os.WriteFile(os.Getenv("VERIF_OUT"), b, 0o644)
 }
@@ -240,7 +248,13 @@ func coordinate(r *ev.Run, scenarios []Scenario, finish func(r *ev.Run)) {
 	nScen, capped, oneOutcome := 0, 0, 0
 	minBound, unb := 1<<30, 0
 	var per []string
+	extra := map[string]int64{}
 	for _, res := range results {
+		if !res.Race {
+			for k, v := range res.Extra {
+				extra[k] += v
+			}
+		}
 		if res.Infra != "" {
 			ev.Infra("%s", res.Infra)
 		}
@@ -287,6 +301,9 @@ func coordinate(r *ev.Run, scenarios []Scenario, finish func(r *ev.Run)) {
 		}
 	}
 	sort.Strings(per)
+	for k, v := range extra {
+		r.Set(k, v)
+	}
 	r.Set("scenarios", nScen)
 	r.Set("executions", execs)
 	r.Set("executions_complete", complete)
